@@ -386,3 +386,32 @@ def n_for_size(t, k, f, target):
     except ValueError:
       n = n * 19 // 20
   return 0
+
+
+# Length of the fixed part of each message (openflow.h 1.0.0 struct sizes; ofp_packet_in without its
+# trailing 2-byte alignment pad, as on the wire with zero data bytes).
+FIXED_LEN = {
+  HELLO: 8, ERROR: 12, ECHO_REQUEST: 8, ECHO_REPLY: 8, VENDOR: 12, FEATURES_REQUEST: 8, FEATURES_REPLY: 32,
+  GET_CONFIG_REQUEST: 8, GET_CONFIG_REPLY: 12, SET_CONFIG: 12, PACKET_IN: 18, FLOW_REMOVED: 88, PORT_STATUS: 64,
+  PACKET_OUT: 16, FLOW_MOD: 72, PORT_MOD: 32, STATS_REQUEST: 12, STATS_REPLY: 12, BARRIER_REQUEST: 8,
+  BARRIER_REPLY: 8, QUEUE_GET_CONFIG_REQUEST: 12, QUEUE_GET_CONFIG_REPLY: 16,
+}
+
+
+def header_class(stream, pos, direction):
+  """Classifies the header found at `pos` of a possibly hostile stream: what, if anything, is wrong
+  with it at the framing level.  direction is the list of types the receiver handles."""
+  if len(stream) - pos < 4:
+    return "truncated-header"
+  ver, t, length = stream[pos], stream[pos + 1], (stream[pos + 2] << 8) | stream[pos + 3]
+  if length < HEADER_LEN:
+    return "length<8"
+  if ver != OFP_VERSION:
+    return "bad-version"
+  if t not in FIXED_LEN:
+    return "unknown-type"
+  if length < FIXED_LEN[t]:
+    return "length<fixed"
+  if t not in direction:
+    return "wrong-direction"
+  return "body"
